@@ -56,7 +56,14 @@ impl TokioChildWrapper for SimChild {
         self.wake.notify_waiters();
         Ok(())
     }
-    fn try_wait(&mut self) -> Result<Option<ExitStatus>> { unimplemented!() }
+    // non-blocking: a status only if the simulated process has exited by now (the unchanged code never calls this)
+    fn try_wait(&mut self) -> Result<Option<ExitStatus>> {
+        let at = *self.exit_at.lock().unwrap();
+        match at {
+            Some(t) if t <= Instant::now() => { let st = *self.status.lock().unwrap(); if !self.reaped { self.reaped = true; self.sh.log(format!("reaped:c{}:{st}", self.id)); } Ok(Some(ExitStatus::from_raw(st))) }
+            _ => Ok(None),
+        }
+    }
     fn wait(&mut self) -> Box<dyn Future<Output = Result<ExitStatus>> + Send + '_> {
         Box::new(async move {
             // fault injection (fault scripts only): the first wait() on this child fails, the process lives on
